@@ -46,7 +46,11 @@ const char* linearizable(int init, int final_value)
             bool ready = true;
             for (int j = 0; j < n; j++) {
                 if (j == i || (f.mask & (1 << j))) continue;
-                uint64_t jret = g_hist[j].async ? INF : g_hist[j].ret;
+                // a deferred modification may take effect after its call returned, but not later than the first access
+                // made once every client thread has finished and no handle is held (g_quiesce; INF while unknown)
+                // (between two deferred modifications real time does count: one that returned before the other began
+                // is applied first)
+                uint64_t jret = (g_hist[j].async && !h.async) ? g_quiesce : g_hist[j].ret;
                 if (jret < h.inv) ready = false;
             }
             if (!ready) continue;
